@@ -284,6 +284,9 @@ func (x *fx) analyzeLoops() {
 		best := token.NoPos
 		for bi := range li.body {
 			for _, in := range x.fn.Blocks[bi].Instrs {
+				if _, isPhi := in.(*ssa.Phi); isPhi {
+					continue // a phi carries the position of the variable's declaration
+				}
 				if p := in.Pos(); p.IsValid() && (best == token.NoPos || p < best) {
 					best = p
 				}
